@@ -15,7 +15,8 @@ EVID = os.path.join(VERIF, "evidence")
 
 
 class Finding:
-    def __init__(self, prop, rule, func, construct, message, loc="", detail=None):
+    def __init__(self, prop, rule, func, construct, message, loc="", detail=None, akey=None):
+        self.abstract = akey
         self.prop = prop
         self.rule = rule
         self.func = func if isinstance(func, str) else getattr(func, "qual", str(func))
@@ -28,12 +29,17 @@ class Finding:
     def key(self):
         return f"{self.rule}|{self.func}|{self.construct}"
 
+    @property
+    def akey(self):
+        """rename-insensitive identity of the construct (what it does to which class of file), when the rule supplies one"""
+        return f"{self.rule}|{self.func}|{self.abstract}" if self.abstract else None
+
     def line(self):
         return f"{self.loc}  {self.rule}  {self.func}  `{self.construct[:110]}` — {self.message}"
 
     def to_json(self):
         return {"property": self.prop, "rule": self.rule, "function": self.func, "construct": self.construct,
-                "message": self.message, "loc": self.loc, "key": self.key, "detail": self.detail}
+                "message": self.message, "loc": self.loc, "key": self.key, "akey": self.akey, "detail": self.detail}
 
 
 class Rule:
@@ -60,8 +66,8 @@ class Rule:
     def ob(self, n=1):
         self.obligations += n
 
-    def fail(self, func, construct, message, loc="", detail=None):
-        f = Finding(self.prop, self.rid, func, construct, message, loc, detail)
+    def fail(self, func, construct, message, loc="", detail=None, akey=None):
+        f = Finding(self.prop, self.rid, func, construct, message, loc, detail, akey)
         if f.key in self._seen:
             return
         self._seen.add(f.key)
@@ -77,6 +83,29 @@ def load_known():
         return {"known": [], "fixed": []}
     with open(KNOWN, encoding="utf-8") as fh:
         return json.load(fh)
+
+
+def split_known(findings, known_entries):
+    """partition findings into (new, [(finding, known entry)]).  A known entry suppresses the finding with
+    exactly its key; or, when the source text of the construct changed (a renamed local), at most ONE
+    finding with its abstract key - a second construct doing the same thing is reported."""
+    by_key = {k["key"]: k for k in known_entries}
+    by_akey = {k["akey"]: k for k in known_entries if k.get("akey")}
+    new, old, used = [], [], set()
+    for f in findings:
+        if f.key in by_key:
+            old.append((f, by_key[f.key]))
+            used.add(id(by_key[f.key]))
+    for f in findings:
+        if f.key in by_key:
+            continue
+        k = by_akey.get(f.akey) if f.akey else None
+        if k is not None and id(k) not in used:
+            used.add(id(k))
+            old.append((f, k))
+        else:
+            new.append(f)
+    return new, old
 
 
 def loc_of(program, func, node):
